@@ -566,6 +566,10 @@ class AsyncServer(base_server.BaseServer):
         except exceptions.ConnectionRefusedError as exc:
             fail_reason = exc.error_args
             success = False
+        except Exception:
+            # the connect handler failed: the client is not connected
+            await self.manager.disconnect(sid, namespace, ignore_queue=True)
+            raise
 
         if success is False:
             if self.always_connect:
